@@ -11,14 +11,8 @@ open Manticore
 
 /-! ### NEGOTIATE / AUTHENTICATE: descriptors -/
 
-/-- **NEGOTIATE_MESSAGE is structurally valid (MS-NLMP 2.2.1.1).**  For all domain / workstation
-    strings, both character sets and arbitrary `ToUpper` / UTF-16 encoders, whenever the two encoded
-    names are shorter than 64 KiB: signature and type are right; UNICODE / OEM / domain-supplied /
-    workstation-supplied / version bits say what was asked; each descriptor has `Len = MaxLen = |field|`,
-    its offset is inside the message and `msg[off : off+len]` is the field; the fields follow each other
-    from byte 40 to the end of the message (so they do not overlap); a name is `utf16 s` under UNICODE and
-    `upper s` under OEM. -/
-theorem negotiate_descriptors (upper utf16 : Bytes → Bytes) (domain workstation : Bytes) (unicode : Bool)
+/-- what follows the length guard of `CreateNegotiateMessage` builds a valid message from names shorter than 64 KiB -/
+private theorem negotiate_descriptors_of_fit (upper utf16 : Bytes → Bytes) (domain workstation : Bytes) (unicode : Bool)
     (hd : (Spec.negotiateName upper utf16 unicode domain).length < 65536)
     (hw : (Spec.negotiateName upper utf16 unicode workstation).length < 65536) :
     Spec.validNegotiate (createNegotiate upper utf16 domain workstation unicode) unicode
@@ -55,13 +49,8 @@ theorem negotiate_descriptors (upper utf16 : Bytes → Bytes) (domain workstatio
   simp only [Spec.validNegotiate, hD, hW, hlen, hsig, htype, hflags, beq_self_eq_true, Bool.and_true, Bool.true_and]
   cases unicode <;> cases domain <;> cases workstation <;> simp [negotiateFlags] <;> decide
 
-/-- **AUTHENTICATE_MESSAGE is structurally valid (MS-NLMP 2.2.1.3).**  For every CHALLENGE flag word,
-    all LM / NT responses and all user / domain / workstation strings whose encodings are shorter than
-    64 KiB: signature, type 3, the flags echoed at byte 60; the six descriptors (LM, NT, domain, user,
-    workstation, session key) have `Len = MaxLen = |field|` and designate exactly their fields, which
-    follow each other from byte 88 to the end of the message; names are UTF-16LE under
-    NTLMSSP_NEGOTIATE_UNICODE and the raw (OEM) bytes otherwise. -/
-theorem authenticate_descriptors (upper utf16 : Bytes → Bytes) (flags : UInt32)
+/-- what follows the length guard of `CreateAuthenticateMessage` builds a valid message from fields shorter than 64 KiB -/
+private theorem authenticate_descriptors_of_fit (upper utf16 : Bytes → Bytes) (flags : UInt32)
     (lm nt user domain workstation : Bytes)
     (hlm : lm.length < 65536) (hnt : nt.length < 65536)
     (hd : (Spec.authName utf16 flags domain).length < 65536)
@@ -189,26 +178,107 @@ theorem authenticate_descriptors (upper utf16 : Bytes → Bytes) (flags : UInt32
       (by rw [hmsg]; simp only [List.append_assoc]) (by len_tac)
   simp only [Spec.validAuthenticate, hLM, hNT, hDo, hUs, hWs, hKey, hlen, hsig, htype, hflags, beq_self_eq_true, Bool.and_true]
 
-/-- witness for finding `field64k`: with a 65536-byte OEM domain the message the library builds is **not**
-    a valid NEGOTIATE_MESSAGE (its 16-bit length says 0) — the library truncates `uint16(len)` silently
-    instead of returning an error.  (`designates_length_lt`: no message can designate such a field.) -/
-theorem negotiate_descriptors_counterexample_field64k :
-    Spec.validNegotiate (createNegotiate id id (List.replicate 65536 65) [] false) false true false
-      (Spec.negotiateName id id false (List.replicate 65536 65)) (Spec.negotiateName id id false []) = false :=
-  negotiate_invalid_of_long _ (by rw [List.length_replicate]; exact Nat.le_refl _)
+/-- **NEGOTIATE_MESSAGE is structurally valid, or refused (MS-NLMP 2.2.1.1).**  For all domain / workstation
+    strings, both character sets and arbitrary `ToUpper` / UTF-16 encoders, `CreateNegotiateMessage` never panics and
+    * when both encoded names are shorter than 64 KiB it returns a message in which signature and type are right;
+      UNICODE / OEM / domain-supplied / workstation-supplied / version bits say what was asked; each descriptor has
+      `Len = MaxLen = |field|`, its offset is inside the message and `msg[off : off+len]` is the field; the fields
+      follow each other from byte 40 to the end of the message (so they do not overlap); a name is `utf16 s` under
+      UNICODE and `upper s` under OEM;
+    * otherwise — a name that a 16-bit `Len` cannot describe (`Spec.fieldsFit`) — it returns an error and no message
+      (before fixes/C08-descriptor-length-guard.diff it wrote `uint16(len)`, i.e. `Len = MaxLen = 0` for 65536 bytes). -/
+theorem negotiate_descriptors (upper utf16 : Bytes → Bytes) (domain workstation : Bytes) (unicode : Bool) :
+    match createNegotiateMessage upper utf16 domain workstation unicode with
+    | .ok msg =>
+      Spec.fieldsFit [Spec.negotiateName upper utf16 unicode domain, Spec.negotiateName upper utf16 unicode workstation] = true ∧
+      Spec.validNegotiate msg unicode (!domain.isEmpty) (!workstation.isEmpty)
+        (Spec.negotiateName upper utf16 unicode domain) (Spec.negotiateName upper utf16 unicode workstation) = true
+    | .err =>
+      Spec.fieldsFit [Spec.negotiateName upper utf16 unicode domain, Spec.negotiateName upper utf16 unicode workstation] = false
+    | .panic => False := by
+  have hd : negName upper utf16 unicode domain = Spec.negotiateName upper utf16 unicode domain := negName_eq ..
+  have hw : negName upper utf16 unicode workstation = Spec.negotiateName upper utf16 unicode workstation := negName_eq ..
+  simp only [createNegotiateMessage, hd, hw]
+  by_cases hlong : (Spec.negotiateName upper utf16 unicode domain).length > 65535 ∨
+      (Spec.negotiateName upper utf16 unicode workstation).length > 65535
+  · rw [if_pos hlong]
+    show Spec.fieldsFit _ = false
+    simp only [Spec.fieldsFit, List.all_cons, List.all_nil, Bool.and_true, Bool.and_eq_false_iff, decide_eq_false_iff_not]
+    omega
+  · rw [if_neg hlong]
+    have h1 : (Spec.negotiateName upper utf16 unicode domain).length < 65536 := by omega
+    have h2 : (Spec.negotiateName upper utf16 unicode workstation).length < 65536 := by omega
+    exact ⟨by simp [Spec.fieldsFit, h1, h2], negotiate_descriptors_of_fit upper utf16 domain workstation unicode h1 h2⟩
 
-/-- the same witness for the AUTHENTICATE message: a 65536-byte OEM user name -/
-theorem authenticate_descriptors_counterexample_field64k :
-    Spec.validAuthenticate (createAuthenticate id id 2 [] [] (List.replicate 65536 65) [] []) 2 [] []
-      (Spec.authName id 2 []) (Spec.authName id 2 (List.replicate 65536 65)) (Spec.authName id 2 (id [])) = false := by
-  apply Bool.eq_false_iff.mpr
-  intro h
-  simp only [Spec.validAuthenticate, Bool.and_eq_true] at h
-  have := designates_length_lt _ _ _ _ h.1.1.1.1.2
-  have e : (Spec.authName id 2 (List.replicate 65536 65)).length = 65536 := by
-    show (if (2 : UInt32).toNat % 2 = 1 then _ else List.replicate 65536 65).length = 65536
-    rw [if_neg (by decide), List.length_replicate]
-  omega
+/-- the repaired finding `field64k`, NEGOTIATE: a name of 64 KiB or more is refused — for every input, not only the
+    former witness (a 65536-byte OEM domain, which went out under `Len = MaxLen = 0`) -/
+theorem negotiate_refuses_field64k (upper utf16 : Bytes → Bytes) (domain workstation : Bytes) (unicode : Bool)
+    (h : 65536 ≤ (Spec.negotiateName upper utf16 unicode domain).length ∨
+         65536 ≤ (Spec.negotiateName upper utf16 unicode workstation).length) :
+    createNegotiateMessage upper utf16 domain workstation unicode = .err := by
+  have hd : negName upper utf16 unicode domain = Spec.negotiateName upper utf16 unicode domain := negName_eq ..
+  have hw : negName upper utf16 unicode workstation = Spec.negotiateName upper utf16 unicode workstation := negName_eq ..
+  simp only [createNegotiateMessage, hd, hw]
+  rw [if_pos (by omega)]
+
+/-- **AUTHENTICATE_MESSAGE is structurally valid, or refused (MS-NLMP 2.2.1.3).**  For every CHALLENGE flag word,
+    all LM / NT responses and all user / domain / workstation strings, `CreateAuthenticateMessage` never panics and
+    * when the five encoded fields are shorter than 64 KiB it returns a message with the signature, type 3, the flags
+      echoed at byte 60; the six descriptors (LM, NT, domain, user, workstation, session key) have
+      `Len = MaxLen = |field|` and designate exactly their fields, which follow each other from byte 88 to the end of
+      the message; names are UTF-16LE under NTLMSSP_NEGOTIATE_UNICODE and the raw (OEM) bytes otherwise;
+    * otherwise it returns an error and no message. -/
+theorem authenticate_descriptors (upper utf16 : Bytes → Bytes) (flags : UInt32)
+    (lm nt user domain workstation : Bytes) :
+    match createAuthenticateMessage upper utf16 flags lm nt user domain workstation with
+    | .ok msg =>
+      Spec.fieldsFit [lm, nt, Spec.authName utf16 flags domain, Spec.authName utf16 flags user,
+        Spec.authName utf16 flags (upper workstation)] = true ∧
+      Spec.validAuthenticate msg flags lm nt (Spec.authName utf16 flags domain) (Spec.authName utf16 flags user)
+        (Spec.authName utf16 flags (upper workstation)) = true
+    | .err =>
+      Spec.fieldsFit [lm, nt, Spec.authName utf16 flags domain, Spec.authName utf16 flags user,
+        Spec.authName utf16 flags (upper workstation)] = false
+    | .panic => False := by
+  simp only [createAuthenticateMessage, authNames_spec]
+  by_cases hlong : ([lm, nt, Spec.authName utf16 flags domain, Spec.authName utf16 flags user,
+      Spec.authName utf16 flags (upper workstation)].any (fun field => decide (field.length > 65535))) = true
+  · rw [if_pos hlong]
+    show Spec.fieldsFit _ = false
+    simp only [List.any_cons, List.any_nil, Bool.or_false, Bool.or_eq_true, decide_eq_true_eq] at hlong
+    simp only [Spec.fieldsFit, List.all_cons, List.all_nil, Bool.and_true, Bool.and_eq_false_iff, decide_eq_false_iff_not]
+    omega
+  · rw [if_neg hlong]
+    simp only [List.any_cons, List.any_nil, Bool.or_false, Bool.or_eq_true, decide_eq_true_eq, not_or] at hlong
+    obtain ⟨h1, h2, h3, h4, h5⟩ := hlong
+    refine ⟨?_, authenticate_descriptors_of_fit upper utf16 flags lm nt user domain workstation
+      (by omega) (by omega) (by omega) (by omega) (by omega)⟩
+    simp only [Spec.fieldsFit, List.all_cons, List.all_nil, Bool.and_true, Bool.and_eq_true, decide_eq_true_eq]
+    omega
+
+/-- the repaired finding `field64k`, AUTHENTICATE: a response or a name of 64 KiB or more is refused — for every
+    input, not only the former witness (a 65536-byte OEM user name) -/
+theorem authenticate_refuses_field64k (upper utf16 : Bytes → Bytes) (flags : UInt32)
+    (lm nt user domain workstation : Bytes)
+    (h : Spec.fieldsFit [lm, nt, Spec.authName utf16 flags domain, Spec.authName utf16 flags user,
+        Spec.authName utf16 flags (upper workstation)] = false) :
+    createAuthenticateMessage upper utf16 flags lm nt user domain workstation = .err := by
+  have := authenticate_descriptors upper utf16 flags lm nt user domain workstation
+  cases hm : createAuthenticateMessage upper utf16 flags lm nt user domain workstation with
+  | ok msg => rw [hm] at this; rw [h] at this; exact absurd this.1 (by simp)
+  | err => rfl
+  | panic => rw [hm] at this; exact this.elim
+
+/-- non-vacuity: the former witnesses are refused, a short name is accepted -/
+example : createNegotiateMessage id id (List.replicate 65536 65) [] false = .err :=
+  negotiate_refuses_field64k id id _ [] false (Or.inl (by
+    have hne : List.replicate 65536 (65 : UInt8) ≠ [] := by
+      intro h; have := congrArg List.length h; rw [List.length_replicate] at this; cases this
+    unfold Spec.negotiateName
+    rw [if_neg hne]
+    show 65536 ≤ (List.replicate 65536 (65 : UInt8)).length
+    rw [List.length_replicate]; exact Nat.le_refl _))
+example : ∃ msg, createNegotiateMessage id id [65, 66] [] false = .ok msg := ⟨_, rfl⟩
 
 example : (Spec.negotiateName id id true [65, 66]).length < 65536 := by decide
 example : (Spec.authName id 1 [65, 66]).length < 65536 := by decide
